@@ -1,5 +1,7 @@
 import DcVerif.Lemmas.Ring
 import DcVerif.Lemmas.RingMulti
+import DcVerif.Lemmas.RingMultiSafe
+import DcVerif.Lemmas.RingMultiSerial
 /-!
 # C14 — sequencers hand out disjoint gap-free ranges; the cursor is the published prefix
 
@@ -15,9 +17,15 @@ and **every schedule** (`Reachable`):
                             sequence.
 
 Multi-producer sequencer (`Model/RingMulti.lean`, any number of writer threads, every interleaving of the read /
-capacity check / CAS / bitmap / cursor steps): `c14_multi_claims_tile` and `c14_multi_cursor_monotone` hold; the other two
-clauses are false today (known finding F7): `c14_multi_cursor_below_highest_claimed` is a schedule-exact witness, identical
-to what the real code does under the same schedule (harness corpus case `F7-witness`).
+capacity check / CAS / bitmap / cursor steps): `c14_multi_claims_tile`, `c14_multi_cursor_monotone` and — for every ring size
+`n = 2^k` — **release safety** `c14_multi_cursor_is_published_prefix` hold: the cursor never moves past a sequence whose
+claimant has not published it (`Lemmas/RingMultiSafe.lean`; also `c14_multi_release_values_published`,
+`c14_multi_set_bit_is_published`, `c14_multi_window`, `c14_multi_bitmap_in_bounds`). The last clause (cursor = highest claimed
+once every claimant has published) is false today: `c14_multi_cursor_below_highest_claimed` (known finding F7: a later
+claimant publishes before an earlier one) and `c14_multi_low_watermark_regresses` (publications *in claim order* that
+overlap: the low watermark is stored out of order, moves backwards, and every later publication is stranded for good) are
+schedule-exact witnesses, identical to what the real code does under the same schedules (harness corpus cases `F7-witness`,
+`F13-witness`).
 -/
 namespace C14
 open Ring
@@ -118,6 +126,189 @@ theorem c14_multi_cursor_below_highest_claimed :
     strandedRun.hw = 2 ∧ strandedRun.s.cursor = 1 := by decide +kernel
 
 example : MReachable strandedRun := ⟨4, 1, fun _ => 1, false, [[1], [1]], _, by decide, rfl⟩
+
+/-! ### release safety (true for this sequencer) -/
+
+/-- **the cursor is a published prefix, multi producer** — every ring size `n = 2^k`, topology, wait strategy, number of
+writer threads, batch lists, **every schedule**: every sequence `q` with `1 ≤ q ≤ cursor` has been claimed (`q ≤ hw`), has
+been written to its slot (it occurs in the ghost list `written`), and is pending with no writer — no writer thread is still
+between its successful CAS on the high watermark and the `ready_sequences.set(q)` of its `publish` call (`Pend`). The cursor
+never moves past a sequence whose claimant has not published it, although two publishers may read the same low watermark,
+unset overlapping ranges and CAS the cursor in either order, although the low watermark may move backwards, and although a
+stale publisher may clear the bit of a sequence one lap ahead. -/
+theorem c14_multi_cursor_is_published_prefix {x : MSt} (hr : MReachableWF x) (k : Nat) (hn : x.s.n = 2 ^ k)
+    (q : Nat) (h1 : 1 ≤ q) (h2 : q ≤ x.s.cursor) :
+    q ≤ x.hw ∧ (∃ i, (q, i) ∈ x.written) ∧ ¬ Pend x q :=
+  published_below_cursor x (mreachableWF_safe hr k hn) q h1 h2
+
+/-- … and the slot write was made by the claimant: the writer thread `i` that wrote `q` won a claim `(lo, hi, count)` with
+`lo ≤ q ≤ hi` (a member of its own claim list and of the global list of successful compare-and-swaps, which tiles
+`[1, high_watermark]` by `c14_multi_claims_tile`) -/
+theorem c14_multi_written_by_claimant {x : MSt} (hr : MReachableWF x) (k : Nat) (hn : x.s.n = 2 ^ k)
+    (q : Nat) (h1 : 1 ≤ q) (h2 : q ≤ x.s.cursor) :
+    ∃ i c, (q, i) ∈ x.written ∧ i < x.P ∧ c ∈ (x.wr i).claims ∧ c ∈ x.allClaims ∧ c.1 ≤ q ∧ q ≤ c.2.1 := by
+  obtain ⟨hs, ho⟩ := mreachableWF_safeOwn hr k hn
+  obtain ⟨_, ⟨i, hi⟩, _⟩ := published_below_cursor x hs q h1 h2
+  obtain ⟨hiP, c, hc, hb1, hb2⟩ := ho.wrote q i hi
+  exact ⟨i, c, hi, hiP, hc, ho.globl i hiP c hc, hb1, hb2⟩
+
+/-- what `Pend` says, spelled out: no writer thread that holds `q` in its claim `[lo, hi]` is still writing its batch or has
+not yet reached `q` in the `set` loop of `publish` -/
+theorem pend_spelled_out (x : MSt) (q : Nat) :
+    Pend x q ↔ ∃ i, i < x.P ∧ (((x.wr i).pc = .write ∧ (x.wr i).lo ≤ q ∧ q ≤ (x.wr i).hi) ∨
+                               ((x.wr i).pc = .setBit ∧ (x.wr i).nbit ≤ q ∧ q ≤ (x.wr i).hi)) := Iff.rfl
+
+/-- every value that can still be CAS-ed into the cursor or stored into the low watermark is a published prefix: the low
+watermark itself, and the `good_to_release` of every writer between its read of the low watermark and the end of `publish` -/
+theorem c14_multi_release_values_published {x : MSt} (hr : MReachableWF x) (k : Nat) (hn : x.s.n = 2 ^ k) :
+    PP x x.lw ∧ x.lw ≤ x.s.cursor ∧
+    ∀ i, i < x.P → ((x.wr i).pc = .scan ∨ (x.wr i).pc = .relCheck ∨ (x.wr i).pc = .unsetBit ∨ (x.wr i).pc = .casCur ∨
+      (x.wr i).pc = .reloadCur ∨ (x.wr i).pc = .setLw) → PP x (x.wr i).good := by
+  have hs := mreachableWF_safe hr k hn
+  exact ⟨fun q h1 h2 => hs.2.pref q h1 (Nat.le_trans h2 hs.2.lwLe), hs.2.lwLe, fun i hi hp => (hs.2.ws i hi).goodPP hp⟩
+
+/-- a bit that is set in the bitmap is the bit of a published, not yet released sequence: some `q0` with the same residue has
+been published by its claimant and lies above the cursor (and, by `c14_multi_window`, below `cursor + n`, so it is unique) -/
+theorem c14_multi_set_bit_is_published {x : MSt} (hr : MReachableWF x) (k : Nat) (hn : x.s.n = 2 ^ k) (q : Nat)
+    (hb : bmIsSet x.bm q = true) : ∃ q0, q0 % x.s.n = q % x.s.n ∧ Pub x q0 ∧ x.s.cursor < q0 ∧ q0 < x.s.cursor + x.s.n := by
+  have hs := mreachableWF_safe hr k hn
+  obtain ⟨q0, h1, h2, h3⟩ := hs.2.bits q hb
+  exact ⟨q0, h1, h2, h3, by have := h2.2.1; have := hs.2.window; omega⟩
+
+/-- all claimed sequences lie in a window of fewer than `n` consecutive numbers above the cursor (so residues identify them) -/
+theorem c14_multi_window {x : MSt} (hr : MReachableWF x) (k : Nat) (hn : x.s.n = 2 ^ k) :
+    x.s.cursor ≤ x.hw ∧ x.hw < x.s.cursor + x.s.n := by
+  have hs := mreachableWF_safe hr k hn
+  refine ⟨?_, hs.2.window⟩
+  rcases Nat.eq_zero_or_pos x.s.cursor with h0 | hp
+  · omega
+  · exact (hs.2.pref _ hp (Nat.le_refl _)).2.1
+
+/-- the unchecked slot index of the bitmap never goes out of bounds (`bm = none` in the model = undefined behaviour in the
+code), for every `n = 2^k` — below, at and above one machine word -/
+theorem c14_multi_bitmap_in_bounds {x : MSt} (hr : MReachableWF x) (k : Nat) (hn : x.s.n = 2 ^ k) : x.bm ≠ none := by
+  obtain ⟨_, b, _, _, hb, _⟩ := (mreachableWF_safe hr k hn).2.bmOk
+  rw [hb]; simp
+
+/-- non-vacuity: two writers published 1 and 2 with overlapping `publish` calls, the cursor is 2 -/
+def overlapRun : MSt := runM (mkM 4 1 (fun _ => 1) false [[1, 1, 1], [1]])
+  (List.replicate 6 (MTid.writer 0) ++ List.replicate 6 (MTid.writer 1) ++ List.replicate 8 (MTid.writer 0) ++
+   List.replicate 16 (MTid.writer 1))
+
+example : overlapRun.s.cursor = 2 ∧ overlapRun.written = [(1, 0), (2, 1)] ∧ (overlapRun.wr 0).pc = .unsetBit ∧
+    (overlapRun.wr 0).good = 1 ∧ overlapRun.lw = 2 := by decide +kernel
+example : MReachableWF overlapRun :=
+  ⟨4, 1, fun _ => 1, false, [[1, 1, 1], [1]], _, by decide, fun _ _ => Nat.one_pos, by decide, rfl⟩
+
+/-- the theorem applied to that state: sequence 2 (≤ cursor) is claimed, written and pending with nobody -/
+example : 2 ≤ overlapRun.hw ∧ (∃ i, (2, i) ∈ overlapRun.written) ∧ ¬ Pend overlapRun 2 :=
+  c14_multi_cursor_is_published_prefix
+    ⟨4, 1, fun _ => 1, false, [[1, 1, 1], [1]], _, by decide, fun _ _ => Nat.one_pos, by decide, rfl⟩ 2 (by decide +kernel)
+    2 (by decide) (by decide +kernel)
+
+/-! ### F13: the low watermark moves backwards; publications in claim order are stranded for good -/
+
+/-- writer 0 claims 1, writer 1 claims 2; writer 0 sets its bit, reads the low watermark 0 and scans up to 1 (= its `hi`);
+writer 1 sets its bit, reads the same low watermark 0, scans up to 2, unsets `0…2`, moves the cursor `0 → 2` and stores the low
+watermark 2; now writer 0 unsets `0…1`, fails its CAS (`0 → 1`), sees the cursor beyond its value and stores the low
+watermark **1** (`overlapRun` is the state just before). From here on every publisher starts its scan at 1 and finds the bit
+of 2 clear: writer 0 publishes 3, the handler consumes 1 and 2, writer 0 publishes 4 — nothing is released any more. -/
+def lwRegressRun : MSt := runM overlapRun
+  (List.replicate 20 (MTid.writer 0) ++ List.replicate 12 (MTid.cons 0 0) ++ List.replicate 20 (MTid.writer 0) ++
+   List.replicate 12 MTid.drainer ++ List.replicate 8 (MTid.cons 0 0))
+
+/-- **F13 (a second negation of "once all claimants have published the cursor equals the highest claimed sequence")**: here
+the `publish` calls *begin* in claim order (writer 0 sets the bit of 1 before writer 1 sets the bit of 2) and merely overlap.
+All four `write` calls have returned, `drain` has returned and the handler has terminated having seen `[1, 2]`; the cursor is 2,
+the low watermark 1, sequences 3 and 4 are written, published by their claimant and lost. Unlike F7 a later publisher does
+not repair it. -/
+theorem c14_multi_low_watermark_regresses :
+    overlapRun.lw = 2 ∧
+    (lwRegressRun.wr 0).pc = .done ∧ (lwRegressRun.wr 1).pc = .done ∧ lwRegressRun.dr.pc = .done ∧
+    (lwRegressRun.s.cons 0 0).pc = .done ∧
+    lwRegressRun.allClaims = [(1, 1, 1), (2, 2, 1), (3, 3, 1), (4, 4, 1)] ∧
+    lwRegressRun.written = [(1, 0), (2, 1), (3, 0), (4, 0)] ∧
+    lwRegressRun.hw = 4 ∧ lwRegressRun.s.cursor = 2 ∧ lwRegressRun.lw = 1 ∧ (lwRegressRun.s.cons 0 0).log = [1, 2] := by
+  decide +kernel
+
+/-! ### the last clause under serialised, in-claim-order publication
+
+Full statement (false, see F7 and F13 above): *once every claimant has published, the cursor equals the highest claimed
+sequence.* What does hold: if the `publish` calls are serialised in claim order — a writer leaves its slot-write loop only
+when no `publish` call is in progress and it holds the lowest unpublished claim (`SerialSched`; nothing else is constrained:
+claims, slot writes, consumers and the draining thread interleave freely) — then it is true. F7 violates the second condition,
+F13 the first; both conditions are needed. -/
+
+/-- **partial C14, last clause**: every ring size `n = 2^k`, topology, wait strategy, number of writer threads, batch lists, and
+every schedule that obeys the serialised in-claim-order discipline: when all writer threads are done the cursor equals the
+high watermark (the highest claimed sequence) -/
+theorem c14_multi_in_order_partial (k K : Nat) (h : Nat → Nat) (blocking : Bool) (batches : List (List Nat))
+    (sched : List MTid) (hK : 0 < K) (hh : ∀ j, j < K → 0 < h j) (hb : ∀ l, l ∈ batches → ∀ b, b ∈ l → 1 ≤ b)
+    (hser : SerialSched (mkM (2 ^ k) K h blocking batches) sched)
+    (hdone : ∀ i, i < (runM (mkM (2 ^ k) K h blocking batches) sched).P →
+      ((runM (mkM (2 ^ k) K h blocking batches) sched).wr i).pc = .done) :
+    (runM (mkM (2 ^ k) K h blocking batches) sched).s.cursor = (runM (mkM (2 ^ k) K h blocking batches) sched).hw :=
+  serial_cursor_eq_hw _ (serAll_run _ sched (serAll_init k K h blocking batches hK hh hb) hser) hdone
+
+/-- … and at every moment of such a run at which no `publish` call is in progress: cursor = low watermark, the bitmap is
+clear, and everything claimed above the cursor is held by a writer still in its slot-write loop -/
+theorem c14_multi_in_order_quiescent (k K : Nat) (h : Nat → Nat) (blocking : Bool) (batches : List (List Nat))
+    (sched : List MTid) (hK : 0 < K) (hh : ∀ j, j < K → 0 < h j) (hb : ∀ l, l ∈ batches → ∀ b, b ∈ l → 1 ≤ b)
+    (hser : SerialSched (mkM (2 ^ k) K h blocking batches) sched)
+    (hq : ∀ i, i < (runM (mkM (2 ^ k) K h blocking batches) sched).P →
+      ((runM (mkM (2 ^ k) K h blocking batches) sched).wr i).pc.pub = false) :
+    (runM (mkM (2 ^ k) K h blocking batches) sched).lw = (runM (mkM (2 ^ k) K h blocking batches) sched).s.cursor ∧
+    (∀ q, bmIsSet (runM (mkM (2 ^ k) K h blocking batches) sched).bm q = false) ∧
+    Cover (runM (mkM (2 ^ k) K h blocking batches) sched) (runM (mkM (2 ^ k) K h blocking batches) sched).s.cursor :=
+  (serAll_run _ sched (serAll_init k K h blocking batches hK hh hb) hser).2.idle hq
+
+/-- a single writer thread obeys the discipline under every schedule: with one writer thread the multi-producer sequencer
+does satisfy the last clause (every ring size `2^k`, topology, wait strategy, batch list, **every schedule**) -/
+theorem c14_multi_single_writer_cursor_eq_highest_claimed (k K : Nat) (h : Nat → Nat) (blocking : Bool) (bs : List Nat)
+    (sched : List MTid) (hK : 0 < K) (hh : ∀ j, j < K → 0 < h j) (hb : ∀ b, b ∈ bs → 1 ≤ b)
+    (hdone : ((runM (mkM (2 ^ k) K h blocking [bs]) sched).wr 0).pc = .done) :
+    (runM (mkM (2 ^ k) K h blocking [bs]) sched).s.cursor = (runM (mkM (2 ^ k) K h blocking [bs]) sched).hw := by
+  have hP : ∀ s, (runM (mkM (2 ^ k) K h blocking [bs]) s).P = 1 := by
+    intro s
+    have : ∀ (y : MSt) (sch : List MTid), (runM y sch).P = y.P := by
+      intro y sch
+      unfold runM
+      induction sch generalizing y with
+      | nil => rfl
+      | cons t ts ih =>
+        simp only [List.foldl_cons]; rw [ih]
+        cases t with
+        | writer i => simp only [stepM]; split; exact stepWriter_P y i; rfl
+        | drainer => exact (stepDrainer_frame y).1
+        | cons k j => simp only [stepM]; split <;> rfl
+    rw [this]; rfl
+  apply c14_multi_in_order_partial k K h blocking [bs] sched hK hh (by intro l hl; simp at hl; subst hl; exact hb)
+    (serialSched_of_single _ rfl sched)
+  intro i hi
+  rw [hP] at hi
+  have : i = 0 := by omega
+  subst this; exact hdone
+
+/-- non-vacuity: two writers claim 1 and 2 concurrently, then publish one after the other in claim order -/
+def serialDemo : List MTid :=
+  List.replicate 6 (MTid.writer 0) ++ List.replicate 6 (MTid.writer 1) ++ List.replicate 20 (MTid.writer 0) ++
+  List.replicate 20 (MTid.writer 1)
+
+example : SerialSched (mkM 4 1 (fun _ => 1) false [[1], [1]]) serialDemo :=
+  serialSched_of_D _ _ (by decide +kernel)
+
+example : ((runM (mkM 4 1 (fun _ => 1) false [[1], [1]]) serialDemo).wr 0).pc = .done ∧
+    ((runM (mkM 4 1 (fun _ => 1) false [[1], [1]]) serialDemo).wr 1).pc = .done ∧
+    (runM (mkM 4 1 (fun _ => 1) false [[1], [1]]) serialDemo).s.cursor = 2 ∧
+    (runM (mkM 4 1 (fun _ => 1) false [[1], [1]]) serialDemo).hw = 2 := by decide +kernel
+
+/-- the F7 schedule violates the order condition, the F13 schedule the non-overlap condition -/
+example : ¬ SerialSchedD (mkM 4 1 (fun _ => 1) false [[1], [1]])
+    ((List.replicate 6 (MTid.writer 0)) ++ (List.replicate 20 (MTid.writer 1)) ++ (List.replicate 20 (MTid.writer 0))) := by
+  decide +kernel
+example : ¬ SerialSchedD (mkM 4 1 (fun _ => 1) false [[1, 1, 1], [1]])
+    (List.replicate 6 (MTid.writer 0) ++ List.replicate 6 (MTid.writer 1) ++ List.replicate 8 (MTid.writer 0) ++
+     List.replicate 16 (MTid.writer 1)) := by decide +kernel
 
 end Multi
 
